@@ -310,6 +310,36 @@ def run(tier: str, seed: int) -> int:
         src = "\n".join(lines) + "\n"
         check_program(drv, chk, f"state:{i}", src, whole.default_opts(inline_functions=False, append_version=False), [0.0, 1.0, 2.0, 3.0, 5.0], [r.randrange(1 << 30) for _ in range(n_env)],
                       steps, failures, diffs, stats)
+    # loop headers: arguments / locals whose last textual use is the header of a loop (range bound, start, step, while limit),
+    # with bodies that need fresh temporaries and locals — the value must stay in its register as long as the loop runs
+    for i in range(24 if tier == "quick" else 1500):
+        nf = r.randrange(1, 3)
+        lines = []
+        calls = []
+        for j in range(nf):
+            form = r.choice(["stop", "start_stop", "step", "while"])
+            c1, c2 = r.choice([2, 3, 5]), r.choice([1, 4, 7])
+            body = [f"        acc += i * {c1} + {c2}"]
+            if r.random() < 0.6:
+                body += [f"        t = acc * 2 - i", f"        d{j}.Setting = t"]
+            if r.random() < 0.3:
+                body += [f"        u = d{j}.Mode + i", f"        acc = acc + u % 3"]
+            if form == "stop":
+                hdr, params, args = "for i in range(n):", "n", [r.choice(["4", "d4.Mode % 5", "3"])]
+            elif form == "start_stop":
+                hdr, params, args = "for i in range(lo, n):", "lo, n", [r.choice(["1", "2"]), r.choice(["5", "d4.Mode % 4 + 2"])]
+            elif form == "step":
+                hdr, params, args = "for i in range(0, n, st):", "n, st", [r.choice(["6", "7"]), r.choice(["2", "3"])]
+            else:
+                hdr, params, args = "while i < n:", "n", [r.choice(["4", "d4.Mode % 5"])]
+                body = ["        i = i + 1"] + body
+            pre = ["    acc = 0"] + (["    i = 0"] if form == "while" else [])
+            lines += [f"def f{j}({params}):"] + pre + ["    " + hdr] + body + [f"    d{j}.On = acc", ""]
+            calls.append(f"f{j}({', '.join(args)})")
+        main = ["while True:"] + ["    " + c for c in calls] + ["    yield_()"] + (["    " + calls[0]] if r.random() < 0.5 else [])
+        src = "\n".join(lines + main) + "\n"
+        check_program(drv, chk, f"header:{i}", src, whole.default_opts(inline_functions=False, append_version=False, use_push_pop_functions=r.random() < 0.3), [0.0, 1.0, 2.0, 3.0, 4.0, 7.0],
+                      [r.randrange(1 << 30) for _ in range(n_env)], steps, failures, diffs, stats)
     # register pressure: many simultaneously live variables, up to and beyond 16
     for k in list(range(10, 22)) * (1 if tier == "quick" else 6):
         names = [f"q{i}" for i in range(k)]
